@@ -119,6 +119,7 @@ type path struct {
 
 	inputs    []inputDecl
 	nameCount map[string]int
+	smtNames  map[string]string
 	choices   []int
 	choiceIdx int
 
@@ -144,6 +145,12 @@ type path struct {
 
 	q0, qs0, qu0, qk0 int
 	t0                time.Duration
+
+	acc      map[string]*smt.Term // verifCheck obligations accumulated per id
+	accOrder []string
+	accSite  map[string]string
+	mdl      map[string]uint64 // an assignment known to satisfy pc (nil: none known)
+	mdlSaved int               // queries avoided thanks to mdl
 }
 
 // P is the path being explored by this worker process.
@@ -159,6 +166,10 @@ var (
 )
 
 func getMainSolver() *smt.Solver {
+	if mainSolver != nil && mainSolver.Dead() {
+		mainSolver.Close()
+		mainSolver = nil
+	}
 	if mainSolver == nil {
 		s, err := smt.StartSolver(SolverKind, SolverTimeoutMs)
 		if err != nil {
@@ -174,6 +185,10 @@ func getMainSolver() *smt.Solver {
 }
 
 func getFPSolver() *smt.Solver {
+	if fpSolver != nil && fpSolver.Dead() {
+		fpSolver.Close()
+		fpSolver = nil
+	}
 	if fpSolver == nil {
 		s, err := smt.StartSolver("cvc5", SolverTimeoutMs*3)
 		if err != nil {
@@ -185,6 +200,10 @@ func getFPSolver() *smt.Solver {
 }
 
 func getCrossSolver() *smt.Solver {
+	if crossSolver != nil && crossSolver.Dead() {
+		crossSolver.Close()
+		crossSolver = nil
+	}
 	if crossSolver == nil {
 		kind := "cvc5"
 		s, err := smt.StartSolver(kind, SolverTimeoutMs)
@@ -199,7 +218,7 @@ func getCrossSolver() *smt.Solver {
 func newPath(job *Job) *path {
 	p := &path{
 		job: job, ctx: smt.NewCtx(), harness: job.Harness,
-		nameCount: map[string]int{}, reach: map[string]bool{}, asserts: map[string]int{},
+		nameCount: map[string]int{}, smtNames: map[string]string{}, reach: map[string]bool{}, asserts: map[string]int{},
 		funcs: map[*ssa.Function]bool{}, stubs: map[string]bool{}, tags: map[string]string{},
 		budget: job.Budget,
 	}
@@ -241,6 +260,9 @@ func (p *path) assertPC(t *smt.Term) {
 		return
 	}
 	p.pc = append(p.pc, t)
+	if p.mdl != nil && smt.Eval(t, p.mdl, map[int]uint64{}) == 0 {
+		p.mdl = nil
+	}
 	if t.HasFP && !p.fpMode {
 		p.switchToFP()
 		return // switchToFP re-asserted the whole pc
@@ -319,6 +341,27 @@ func (p *path) decide(conds []*smt.Term, vals []int64) int {
 			feasible = []int{1}
 		case conds[1].IsFalse():
 			feasible = []int{0}
+		case p.mdl != nil:
+			// the known model witnesses one side for free
+			side := 1
+			if smt.Eval(conds[0], p.mdl, map[int]uint64{}) != 0 {
+				side = 0
+			}
+			p.mdlSaved++
+			other := 1 - side
+			switch r := p.check(conds[other], false); r {
+			case smt.Unsat:
+				feasible = []int{side}
+			default:
+				if r == smt.Unknown {
+					p.note("unknown feasibility at " + p.site())
+				}
+				feasible = []int{0, 1}
+				if other == 0 {
+					// we continue on side 0: adopt the solver's model for it
+					p.mdl = p.fetchModel(r == smt.Sat)
+				}
+			}
 		default:
 			r0 := p.check(conds[0], false)
 			if r0 == smt.Unsat {
@@ -327,6 +370,7 @@ func (p *path) decide(conds []*smt.Term, vals []int64) int {
 				if r0 == smt.Unknown {
 					p.note("unknown feasibility at " + p.site())
 				}
+				m0 := p.fetchModel(r0 == smt.Sat)
 				r1 := p.check(conds[1], false)
 				switch r1 {
 				case smt.Unsat:
@@ -337,6 +381,7 @@ func (p *path) decide(conds []*smt.Term, vals []int64) int {
 				default:
 					feasible = []int{0, 1}
 				}
+				p.mdl = m0
 			}
 		}
 	} else {
@@ -376,6 +421,18 @@ func (p *path) decide(conds []*smt.Term, vals []int64) int {
 		p.assertPC(conds[chosen])
 	}
 	return chosen
+}
+
+// fetchModel reads the model of the last (sat) query, as a total assignment.
+func (p *path) fetchModel(sat bool) map[string]uint64 {
+	if !sat || len(p.ctx.Vars) > 400 {
+		return nil
+	}
+	m, err := p.sol.Model(p.ctx.Vars)
+	if err != nil {
+		return nil
+	}
+	return m
 }
 
 // branch forks on a symbolic Boolean.
@@ -548,7 +605,15 @@ func (p *path) newInput(name string, k types.BasicKind) value {
 		p.inputs = append(p.inputs, inputDecl{name: name})
 		return concreteOfKind(k, v)
 	}
-	t := p.ctx.Var(smtName(name), kindWidth[k])
+	sn := smtName(name)
+	for {
+		if o, used := p.smtNames[sn]; !used || o == name {
+			break
+		}
+		sn += "_x"
+	}
+	p.smtNames[sn] = name
+	t := p.ctx.Var(sn, kindWidth[k])
 	p.inputs = append(p.inputs, inputDecl{name, t})
 	return sym{k, t}
 }
@@ -643,7 +708,44 @@ func callVerifAPI(fr *frame, name string, args []value) (res value, ok bool) {
 		}
 		p.choices = append(p.choices, c)
 		return c, true
+	case "verifCheck":
+		id := goString(args[1])
+		p.asserts[id]++
+		switch c := args[0].(type) {
+		case bool:
+			if !c {
+				m, mok := p.model()
+				p.addViolation("assert", id, "assertion false on this path at "+p.site(), m, mok)
+				panic(pathEnd{"violation", id})
+			}
+			p.qsimplified++
+		case sym:
+			if c.t.IsTrue() {
+				p.qsimplified++
+				break
+			}
+			if p.acc == nil {
+				p.acc = map[string]*smt.Term{}
+				p.accSite = map[string]string{}
+			}
+			if old, ok := p.acc[id]; ok {
+				p.acc[id] = p.ctx.BAnd(old, c.t)
+			} else {
+				p.acc[id] = c.t
+				p.accOrder = append(p.accOrder, id)
+				p.accSite[id] = p.site()
+			}
+		}
+		return nil, true
+	case "verifFlushChecks":
+		p.flushChecks()
+		return nil, true
+	case "verifAnd":
+		return andV(args[0], args[1]), true
+	case "verifOr":
+		return orV(args[0], args[1]), true
 	case "verifAssume":
+		p.flushChecks()
 		switch c := args[0].(type) {
 		case bool:
 			if !c {
@@ -734,6 +836,40 @@ func callVerifAPI(fr *frame, name string, args []value) (res value, ok bool) {
 		return !containsSym(args[0]), true
 	}
 	return nil, false
+}
+
+// flushChecks discharges the obligations accumulated by verifCheck, one query per id.
+func (p *path) flushChecks() {
+	if len(p.accOrder) == 0 {
+		return
+	}
+	order := p.accOrder
+	acc := p.acc
+	p.accOrder, p.acc = nil, nil
+	for _, id := range order {
+		t := acc[id]
+		r := p.check(t, true)
+		switch r {
+		case smt.Unsat:
+		case smt.Sat:
+			var m map[string]uint64
+			mok := false
+			if mm, err := p.sol.Model(p.ctx.Vars); err == nil {
+				m = map[string]uint64{}
+				for _, in := range p.inputs {
+					m[in.name] = mm[in.v.Name]
+				}
+				mok = true
+			}
+			p.addViolation("assert", id, "accumulated check can fail (first at "+p.accSite[id]+")", m, mok)
+			if p.check(t, false) == smt.Unsat {
+				panic(pathEnd{"violation", id})
+			}
+		default:
+			p.note("unknown verdict for check " + id)
+		}
+		p.assertPC(t)
+	}
 }
 
 func containsSym(v value) bool {
@@ -882,6 +1018,7 @@ func RunPath(job *Job) (res PathResult) {
 			panic(pathEnd{"harness-error", "no such harness " + job.Harness})
 		}
 		call(i, nil, token.NoPos, fn, nil)
+		p.flushChecks()
 		runPendingGoroutines()
 	}()
 	killGoroutines()
